@@ -176,6 +176,7 @@ func checkC05(p *Program, r *Report) {
 		"R2 every ordering operator has an exact integer path (Value.Int on both sides) taken when both operands are signed integers, and its float64 path only otherwise. " +
 		"R3 the small-integer cache is transparent: array length = max-min+1, entry i-min holds ValueOf(int64(i)) for every i in [min,max], the lookup indexes v-min only under min <= v <= max and otherwise boxes v itself. " +
 		"R4 every integer division/remainder is dominated by a zero test of the divisor whose zero edge raises an error. " +
+		"R11 `+ - *` are carried out in float64 as soon as one operand is a float: the add / multiply handlers are evaluated outright for every pair of operand kinds (booleans, numbers, strings) with a float operand - operator string and kind tests decided, pure functions over kinds interpreted - and the int64 computation must be unreachable (`+` with a string and `*` with a string on the left have their own meaning and are left out). " +
 		"R5 string conversion of operands for `+` goes through Go's default formatting only (fmt.Sprint), no second formatter.")
 	r.Assume("which of the int/float/string branches is chosen for a pair of kinds, and toInt64/toFloat64 agreeing with Go's conversions for every value, are value-level and not decided; wrap-around is Go's")
 	m, err := buildVMModel(p)
@@ -330,6 +331,7 @@ func checkC05(p *Program, r *Report) {
 			}
 		}
 	}
+	c05FloatDomain(p, r, m, va, handlers)
 	c05Cache(p, r, m)
 	c05DivZero(p, r, m)
 	c05ToString(p, r, m)
